@@ -110,9 +110,10 @@ def run_translator(cfg, notes):
         old[o] = open(o).read() if os.path.exists(o) else None
         if os.path.exists(o):
             os.remove(o)
-    exe = os.path.join(BIN, "translator")
+    sub = cfg["id"].lower()
+    exe = os.path.join(BIN, "translator-" + sub)
     os.makedirs(BIN, exist_ok=True)
-    rc, out = sh(["go", "build", "-o", exe, "."], cwd=os.path.join(ROOT, "translator"), env=GOENV)
+    rc, out = sh(["go", "build", "-o", exe, "./" + sub], cwd=os.path.join(ROOT, "translator"), env=GOENV)
     if rc != 0:
         notes.append("translator build failed: " + out[-2000:])
         return False, []
